@@ -128,6 +128,58 @@ func (c *Ctx) ruleBlockRequests() {
 				}
 			}
 		})
+		if !found {
+			// extract-function form: the size comes from a helper of the package whose every return is either the
+			// protocol maximum or the request's Max on a path where `*req.Max < MaxBlocksInResponse` holds
+			eachInstr(f, func(_ *ssa.BasicBlock, _ int, in ssa.Instruction) {
+				call, isCall := in.(*ssa.Call)
+				if !isCall || found {
+					return
+				}
+				g := call.Call.StaticCallee()
+				if g == nil || g.Pkg != f.Pkg || len(g.Blocks) == 0 || g.Signature.Results().Len() != 1 {
+					return
+				}
+				if _, isInt := typeRange(g.Signature.Results().At(0).Type()); !isInt {
+					return
+				}
+				nConst, nMax, good := 0, 0, true
+				for _, r := range returnsOf(g) {
+					for _, v := range phiInputs(resultOf(r, 0)) {
+						if k, isK := constInt(v); isK && k == maxResp {
+							nConst++
+							continue
+						}
+						fromMax := false
+						for x := range backwardSlice(v, nil) {
+							if _, fv, ok := fieldLoad(x); ok && fv != nil && fv.Name() == "Max" {
+								fromMax = true
+							}
+						}
+						guarded := false
+						for _, fc := range factsAt(r.Block()) {
+							_, op, k, isCmp := cmpWithConst(fc.cond)
+							if isCmp && k == maxResp {
+								if !fc.truth {
+									op = negOp(op)
+								}
+								if op == token.LSS {
+									guarded = true
+								}
+							}
+						}
+						if fromMax && guarded {
+							nMax++
+						} else {
+							good = false
+						}
+					}
+				}
+				if nConst > 0 && nMax > 0 {
+					found, ok = true, good
+				}
+			})
+		}
 		c.ob("R-CLAMP", name+":max-clamped", f.Pos(), found && ok, "the number of served blocks may exceed the protocol maximum: the override by the request's Max must be dominated by `*req.Max < MaxBlocksInResponse`")
 	}
 	c.doc("R-DIRSWITCH", "CreateBlockResponse: a direction other than Ascending/Descending returns errInvalidRequestDirection")
